@@ -36,6 +36,12 @@ def load_event(s):
     return e, data['id']
 
 
+def _dumps(data):
+    # '~' can only occur inside JSON strings: escaped, a packet never contains
+    # the delimiter the protocol frames packets with ('~~~')
+    return json.dumps(data).replace('~', '\\u007e')
+
+
 def dump_event(e, id):
     meta = {}
     for name in list(set(dir(e)) - META_EXCLUDE):
@@ -53,7 +59,7 @@ def dump_event(e, id):
         'meta': meta,
     }
 
-    return json.dumps(data)
+    return _dumps(data)
 
 
 def dump_value(v):
@@ -70,7 +76,7 @@ def dump_value(v):
         'value': v._value,
         'meta': meta,
     }
-    return json.dumps(data)
+    return _dumps(data)
 
 
 def load_value(v):
